@@ -2776,9 +2776,10 @@ class RedunBackendDb(RedunBackend):
 
         with with_defer_constraints(self.session):
             if not job.parent_job:
-                # Record top-level job for the execution.
-                current_execution = self._executions.pop(job.execution.id)
-                assert current_execution.job_id is None
+                # Record top-level job for the execution. The pending execution is only
+                # forgotten once it is committed, so that a retried attempt finds it again.
+                current_execution = self._executions[job.execution.id]
+                assert current_execution.job_id in (None, job.id)
                 current_execution.job_id = job.id
                 self.session.add(current_execution)
 
@@ -2794,6 +2795,9 @@ class RedunBackendDb(RedunBackend):
             )
             self.session.add(db_job)
             self.session.commit()
+
+        if not job.parent_job:
+            self._executions.pop(job.execution.id, None)
 
         return db_job
 
